@@ -2,14 +2,18 @@ use crate::common::Ctx;
 use serde_json::Value;
 
 pub mod c01;
+pub mod c02;
 pub mod c10;
+pub mod c16;
 
 pub type RunFn = fn(&mut Ctx);
 
 pub fn find(id: &str) -> Option<(&'static str, RunFn)> {
     Some(match id {
         "C01" => ("C01", |c| c01::run(c)),
+        "C02" => ("C02", |c| c02::run(c)),
         "C10" => ("C10", |c| c10::run(c)),
+        "C16" => ("C16", |c| c16::run(c)),
         _ => return None,
     })
 }
@@ -17,7 +21,9 @@ pub fn find(id: &str) -> Option<(&'static str, RunFn)> {
 pub fn replay(id: &str, case: &Value) -> Result<(), String> {
     match id {
         "C01" => c01::replay(case),
+        "C02" => c02::replay(case),
         "C10" => c10::replay(case),
+        "C16" => c01::replay(case),
         _ => Err(format!("no replay for {}", id)),
     }
 }
